@@ -101,16 +101,23 @@ impl Unreal2Protocol {
         // error).
 
         let mut mutators_and_rules = MutatorsAndRules::default();
+        // The packets carry no sequence number: remember them to skip one that is delivered twice
+        let mut seen_packets: Vec<Vec<u8>> = Vec::new();
         {
             let data = self.get_request_data(PacketKind::MutatorsAndRules)?;
             let mut buffer = Buffer::<LittleEndian>::new(&data);
             // TODO: Maybe put consume headers in individual packet parse methods
             Self::consume_response_headers(&mut buffer, PacketKind::MutatorsAndRules)?;
-            mutators_and_rules.parse(&mut buffer)?
+            mutators_and_rules.parse(&mut buffer)?;
+            seen_packets.push(data);
         };
 
         // We could receive multiple packets in response
         while let Ok(data) = self.socket.receive(Some(PACKET_SIZE)) {
+            if seen_packets.contains(&data) {
+                continue;
+            }
+
             let mut buffer = Buffer::<LittleEndian>::new(&data);
 
             let r = Self::consume_response_headers(&mut buffer, PacketKind::MutatorsAndRules);
@@ -120,6 +127,7 @@ impl Unreal2Protocol {
             }
 
             mutators_and_rules.parse(&mut buffer)?;
+            seen_packets.push(data);
         }
 
         Ok(mutators_and_rules)
@@ -140,7 +148,14 @@ impl Unreal2Protocol {
         // Fetch first players packet (with retries); whether a failure here is fatal is decided by the
         // caller's gather setting
         let mut players_data = Ok(self.get_request_data(PacketKind::Players)?);
+        // The packets carry no sequence number: remember them to skip one that is delivered twice
+        let mut seen_packets: Vec<Vec<u8>> = Vec::new();
         while let Ok(data) = players_data {
+            if seen_packets.contains(&data) {
+                players_data = self.socket.receive(Some(PACKET_SIZE));
+                continue;
+            }
+
             let mut buffer = Buffer::<LittleEndian>::new(&data);
 
             Self::consume_response_headers(&mut buffer, PacketKind::Players)?;
@@ -154,6 +169,8 @@ impl Unreal2Protocol {
                     break;
                 }
             }
+
+            seen_packets.push(data);
 
             // Receive next packet
             players_data = self.socket.receive(Some(PACKET_SIZE));
